@@ -49,9 +49,9 @@ func genStress(t *rapid.T) StressCase {
 
 func stressReps() int {
 	if os.Getenv("VERIF_TIER") == "thorough" {
-		return 50
+		return 40
 	}
-	return 12
+	return 8
 }
 
 type swResult struct {
